@@ -239,12 +239,16 @@ class Function(Type):
             : len(parameterList)
         ]
 
-        return sum(
-            [
-                Match(e[0], e[1])
-                for e in zip(parameterList, matchingArgumentTypes)
-            ]
-        )
+        scores = [
+            Match(e[0], e[1]) for e in zip(parameterList, matchingArgumentTypes)
+        ]
+
+        # A single incompatible argument makes the whole overload unusable,
+        # it must not be offset by the conversions of other arguments
+        if any(score < 0 for score in scores):
+            return -1
+
+        return sum(scores)
 
     def GetReturnType(self) -> Type:
         """The return type of this function, potentially unresolved."""
